@@ -73,6 +73,8 @@ TreeComplaints(text, ro, t, par, head) ==
               short == t.kind = "list" /\ \E h \in Shorthands : StartsWith(slice, h)
           IN (IF par[1] >= 0 /\ (s < par[1] \/ e > par[2]) THEN << <<"span not contained in the parent's span", t.span>> >> ELSE <<>>)
              \o (IF head THEN (IF slice \in Shorthands /\ slice = ShorthandFor(t.v) THEN <<>> ELSE << <<"head of a quote shorthand covers", slice>> >>)
+                 \* a shorthand in a dotted tail, (a . 'x) = (a quote x): its head is an element of the enclosing list
+                 ELSE IF slice \in Shorthands /\ slice = ShorthandFor(t.v) THEN <<>>
                  ELSE IF r.t = "ok" /\ r.v # t.v /\ NoFloatIn(t.v) THEN << <<"covered text reads as a different datum", slice>> >>
                  ELSE IF r.t \in {"rej", "inc", "trailing"} THEN << <<"covered text is not one datum", slice, r.t>> >>
                  ELSE <<>>)
